@@ -39,7 +39,10 @@ func (*prop) Rule() string {
 		"Each address goes to the real egress.Refuse and to an independent integer classifier of the documented floor; a case is non-trivial " +
 		"when floor addresses were really judged (sweep chunks: the whole /8 was judged). " +
 		"dial/<scenario> = one scenario (22 kinds x seeded variants) against the real egress.Service.Do with a scripted resolver and loopback " +
-		"listeners; non-trivial when requests were made and every listener was proven live by a harness fence connection; " +
+		"listeners; the ONLY dial-path violation is a connection (listener accept or connect(2)) to a floor address that is not an exact carved-out (IP,port) " +
+		"of the scenario, whichever hop made it (direct, redirect hop, proxy named by HTTP(S)_PROXY/ALL_PROXY pointing at a non-carved loopback listener); " +
+		"a followed redirect or an honoured proxy whose every hop passes the gate is only counted (redirects_followed_observed, proxy_env_honoured_observed); " +
+		"non-trivial when requests were made and every listener was proven live by a harness fence connection; " +
 		"dial/strace-connect-log = all scenarios re-run in a child under strace -f -e trace=connect. " +
 		"policy/ceiling=<kind>/per=<kind> = a chunk of PRNG (per-processor, ceiling) pairs through ResolvePolicy (1 in 16 of the settings-built " +
 		"ones also through processor.Service); non-trivial when a clamp/drop/deny really happened. " +
@@ -53,7 +56,8 @@ func (*prop) Assumptions() []string {
 		"no real network: 'public' destinations are a local non-floor interface address when the machine has one (else an unreachable TEST-NET address); DNS is a scripted egress.Resolver except in the real-resolver-localhost scenario",
 		"TLS success paths are not exercised (https requests reach plain-TCP listeners, which is enough to observe the connection)",
 		"policies fed to ResolvePolicy are built by the repo's own ParseAllowEntry/ParseAllowlist/PolicyFromSettings (entries whose IP field is consistent with Host); hand-forged inconsistent AllowEntry structs are out of scope",
-		"the proxy-environment scenario can only show a proxied request when the proxy listener itself passes the dial gate (it is carved out in that scenario); a public proxy cannot be simulated offline",
+		"followed redirects and an honoured proxy environment are observations, not violations: the property only forbids a connection to a refused address that is not an exact carved-out (IP,port); each redirect/proxy hop is judged by that rule alone",
+		"a proxied request is only observable offline when the proxy listener itself passes the dial gate (it is carved out in one scenario => observation); with a non-carved loopback proxy the listener must stay silent (violation otherwise); a public proxy, which would let the proxy reach refused addresses unseen by the gate, cannot be simulated offline and is NOT covered",
 	}
 }
 func (*prop) CaseTimeout() time.Duration { return 6 * time.Minute }
@@ -65,7 +69,7 @@ type caseDesc struct {
 }
 
 const (
-	quickRandomPerCase    = 75_000
+	quickRandomPerCase    = 150_000
 	thoroughRandomPerCase = 250_000
 	v6RandomPerCase       = 100_000
 	quickPolicyPerCase    = 5_000
@@ -79,7 +83,7 @@ func layout(tier string) []caseDesc {
 	for _, f := range boundaryForms {
 		cs = append(cs, caseDesc{kind: "boundary", form: f})
 	}
-	nRand, nV6, variants, nPol, perPol := quickRandomPerCase, 3, 2, 20, quickPolicyPerCase
+	nRand, nV6, variants, nPol, perPol := quickRandomPerCase, 3, 3, 20, quickPolicyPerCase
 	if tier == "thorough" {
 		nRand, nV6, variants, nPol, perPol = thoroughRandomPerCase, 100, 10, 45, thoroughPolicyPerCase
 	}
